@@ -162,7 +162,10 @@ theorem toml_mapping_columns_merged_counterexample :
     (match tomlMapping configured with | (_, .path p) :: _ => p == "request.time" | _ => false) = true := by
   decide
 
-/-- what holds: names that are lower-case already and pairwise different arrive as configured, in order -/
+/-- what holds: names that are lower-case already and pairwise different arrive as configured, in order.
+ASCII names only: `Sink.lowerName` lowers `A`–`Z`, while the `config` crate applies Unicode
+`str::to_lowercase` (a configured `Ärger` meets `hlow` here and arrives as `ärger` in the code); the
+harness draws ASCII names -/
 theorem toml_mapping_keeps_distinct_lowercase_names_partial (configured : List (String × CsvMapping))
     (hlow : ∀ c ∈ configured, lowerName c.1 = c.1) (hnd : (configured.map (·.1)).Nodup) :
     tomlMapping configured = configured := by
